@@ -46,7 +46,7 @@ with new_dataset(td / "B_unfiltered.rtdc") as b:
     assert np.array_equal(b["deform"][:], deform)
 
 with new_dataset(td / "B_filtered.rtdc") as b:
-    rid = b.config["experiment"]["run identifier"]
+    rid = b.config["experiment"].get("run identifier")
     try:
         got = b["deform"][:]
     except BaseException as ex:
